@@ -130,6 +130,9 @@ def run(res: C.Result, deep: bool):
                 k = l.split()[2]
                 ex.setdefault("leaf_kinds", {}).setdefault(k, 0)
                 ex["leaf_kinds"][k] += 1
+            elif l.startswith("HOP "):
+                ex.setdefault("storage_ops", {}).setdefault(l.split()[1], 0)
+                ex["storage_ops"][l.split()[1]] += 1
             elif l.startswith("FD "):
                 t = l.split(None, 3)
                 ex.setdefault("from_dict_probes", {}).setdefault(t[1], {"ok": 0, "err": 0})
